@@ -67,6 +67,44 @@ def subtraces(recs):
     return out
 
 
+def search_history(chains, initial):
+    """History of one IterativeTighteningSearch over scripted items: bounds() around every tighten_bounds()."""
+    from graphtage.bounds import Range
+    from graphtage.search import IterativeTighteningSearch
+    from harness.watchdog import Expired, deadline
+    from props import c17
+    ev = []
+    try:
+        with deadline(3.0):
+            items = c17.make_items(chains)
+            vmax = max(c[0][1] for c in chains)
+            s = IterativeTighteningSearch(iter(items), initial_bounds=Range(0, vmax) if initial else None)
+            b = s.bounds()
+            ev.append({"k": "b", "lo": c17.enc(b.lower_bound), "hi": c17.enc(b.upper_bound)})
+            n = 0
+            while True:
+                r = s.tighten_bounds()
+                ev.append({"k": "t", "r": bool(r)})
+                b = s.bounds()
+                ev.append({"k": "b", "lo": c17.enc(b.lower_bound), "hi": c17.enc(b.upper_bound)})
+                n += 1
+                if not r:
+                    break
+                if n > 2000:
+                    ev.append({"k": "open"})
+                    break
+    except Expired:
+        ev.append({"k": "hang"})
+    except Exception as ex:
+        ev.append({"k": "raise", "in": "search", "exc": type(ex).__name__})
+    final = 0
+    for e in reversed(ev):
+        if e["k"] == "b":
+            final = e["lo"]
+            break
+    return {"final": final, "ev": ev}
+
+
 def _one(args):
     case, salt, active = args
     from harness import monitor
@@ -104,7 +142,7 @@ def _init():
 def run():
     chk = Check("C04", "model_checking")
     t = tier()
-    sizes = {"small": (500, 6000), "random": (500, 8000), "skewed": (150, 1500), "mset": (150, 2000), "msetdup": (120, 1500),
+    sizes = {"small": (500, 6000), "random": (500, 8000), "skewed": (150, 1500), "mset": (150, 2000), "msetdup": (120, 1500), "huge": (12, 60),
              "xml": (150, 2000)}
     jobs = []
     for kind, (q, th) in sizes.items():
@@ -130,6 +168,31 @@ def run():
             else:
                 d["n"] += 1
                 d["cls"].add(cls)
+    # the iterative tightening search is not used by the engine's own edits: its protocol is observed on scripted
+    # items following every tightening schedule TLC enumerates for small constants, with and without initial bounds
+    from props import c17
+    scheds = []
+    for nn, vv in ((2, 2), (3, 2)) if t == "quick" else ((2, 3), (3, 2), (3, 3)):
+        cfg = tlc.cfg_text(spec="GenSpec", constants={"NItems": nn, "V": vv}, invariants=["Emit"])
+        res = tlc.run_tlc("SelectionGen", cfg, workers=1, timeout=1500, name="SelectionGen")
+        scheds += [x for x in res.printed if isinstance(x, list)]
+        chk.add_tlc(res, "SelectionGen", "tightening schedules for %d items over 0..%d" % (nn, vv))
+    scheds += c17.random_schedules(rng("c04-search"), 400 if t == "quick" else 4000)
+    corpus._quiet_env()
+    n_search = 0
+    for ch in scheds:
+        for initial in (False, True):
+            sub = search_history(ch, initial)
+            n_search += 1
+            key = json.dumps(sub, sort_keys=True)
+            d = distinct.get(key)
+            if d is None:
+                distinct[key] = {"sub": sub, "cls": {"IterativeTighteningSearch"}, "n": 1,
+                                 "case": ("search", ch, initial, None), "active": True}
+            else:
+                d["n"] += 1
+                d["cls"].add("IterativeTighteningSearch")
+    chk.extra["search_histories"] = n_search
     items = list(distinct.values())
     total_objects = sum(d["n"] for d in items)
     chk.extra["objects_observed"] = total_objects
@@ -163,7 +226,7 @@ def run():
             if v["clause"].startswith("machinery:"):
                 raise MachineryError("object history rejected by machinery clause %s" % v["clause"])
             cls = sorted(d["cls"])[0]
-            sig = {"clause": v["clause"], "class": cls, "kind": d["case"][0]}
+            sig = {"clause": v["clause"], "class": cls, "kind": d["case"][0] if isinstance(d["case"][0], str) else "?"}
             msg = "%s object (%d occurrence(s)) breaks clause '%s' at event %d of its history %s; mode=%s; case %s" % (
                 "/".join(sorted(d["cls"])), d["n"], v["clause"], v["step"], json.dumps(d["sub"]["ev"])[:400],
                 "active" if d["active"] else "passive", json.dumps(d["case"])[:300])
@@ -197,7 +260,11 @@ def replay(path):
         doc = json.load(f)
     rp = doc["replay"]
     chk = Check("C04", "model_checking")
-    res = _one((tuple(rp["case"]), 4, rp["active"]))
+    if rp["case"][0] == "search":
+        corpus._quiet_env()
+        res = {"subs": [("IterativeTighteningSearch", search_history(rp["case"][1], rp["case"][2]))]}
+    else:
+        res = _one((tuple(rp["case"]), 4, rp["active"]))
     traces = [s for _, s in res["subs"]]
     verdicts, st = tlc.validate_traces("BoundedTrace", traces, constants={"Vals": {0}, "Inf": 2 ** 30})
     chk.add_trace_stats(st, "BoundedTrace", len(traces))
